@@ -80,6 +80,24 @@ def run(chk):
             if f:
                 chk.classify(f, kf_match)
                 chk.fail(f)
+        # long flat operator chains and deep parentheses (reasonably sized input: a few KB): no RecursionError
+        for n_ in (600, 1500):
+            for op in (' or ', ' and '):
+                chain = op.join('id = %d' % i for i in range(n_))
+                for text in ('select * from t where ' + chain, 'select a from t group by a having ' + chain):
+                    chk.count((d, 'chain', n_, op, text[:30]))
+                    f = probe_case(d, text)
+                    if f:
+                        f['text'] = text[:200] + ' ... (%d conditions)' % n_
+                        chk.classify(f, kf_match)
+                        chk.fail(f)
+        for text in ('select ' + ' + '.join('c%d' % i for i in range(800)) + ' from t', 'select ' + '(' * 150 + '1' + ')' * 150):
+            chk.count((d, 'chain', text[:30], len(text)))
+            f = probe_case(d, text)
+            if f:
+                f['text'] = text[:200] + ' ...'
+                chk.classify(f, kf_match)
+                chk.fail(f)
         # arbitrary unicode text
         for i in range(200 if quick else 5000):
             n = rng.randint(0, 30)
